@@ -11,7 +11,7 @@ EXPLANATION = ('Decides on the MIR of the current tree: (a) every System operati
                'ensure_authenticated or of a permission rule called with the session\'s user id, and the success edge of the rule listed for it; (b) ids handed to rules have the right '
                'kind; (c) for each of the 40 permission rule functions the complete decision table is extracted and checked for grant soundness against the documented hierarchy, '
                'monotonicity over all atom assignments, key provenance and panic freedom; (d) the denormalised permission tables follow the records; (e) root is protected; '
-               '(f,g) handlers reach catalogue data only through gated operations. Not decided: ordering of permission changes against concurrently running requests.')
+               '(f,g) handlers reach catalogue data only through gated operations. Also: the clearing calls of the denormalised tables select exactly the user\'s entries (the key component that holds the user id), and Permissions::to_bytes emits the flags in the order from_bytes stores them (a record keeps every flag through the wire and the journal). Not decided: ordering of permission changes against concurrently running requests.')
 ASSUMPTIONS = ['user id 0 (unauthenticated) owns no permission record, so a successful permission rule implies authentication',
                'the granting sets in GRANTS are the closure of the hierarchy documented in sdk/src/models/permissions.rs plus what the pinned tree grants (confirmed by reading)',
                'HTTP requests outside PUBLIC_PATHS pass the jwt middleware (not analysed here)']
